@@ -24,6 +24,9 @@ pub struct Rw {
     pub noop_methods: HashSet<String>,
     /// names of lock-guard bindings whose live range is monitored (R27)
     pub guards: HashSet<String>,
+    pub allow_log_calls: bool,
+    pub loop_await_rule: Option<(usize, String)>, // (loop ordinal, the one awaited method allowed inside it)
+    pub loop_stack: Vec<usize>,
     pub live_guards: Vec<String>,
     /// guards discovered under `guards=*`
     pub star_guards: Vec<String>,
@@ -142,6 +145,9 @@ impl Rw {
             closure_counter: 0,
             noop_methods: HashSet::new(),
             guards: HashSet::new(),
+            allow_log_calls: false,
+            loop_await_rule: None,
+            loop_stack: Vec::new(),
             live_guards: Vec::new(),
             star_guards: Vec::new(),
             scrut_counter: 0,
@@ -271,6 +277,37 @@ impl Rw {
 
 impl VisitMut for Rw {
     fn visit_block_mut(&mut self, b: &mut Block) {
+        // the body of loop N starts with the marker `__vx_loop!(N);`
+        let my_loop: Option<usize> = match b.stmts.first() {
+            Some(Stmt::Macro(m)) if macro_name(&m.mac) == "__vx_loop" => m.mac.tokens.to_string().trim().parse::<usize>().ok(),
+            _ => None,
+        };
+        if let Some(n) = my_loop {
+            self.loop_stack.push(n);
+        }
+        // R19b: `tokio::spawn(async move { B });` as a statement whose handle is dropped: the task is detached; B is not verified
+        // here (Verus has no async blocks), the spawn itself does not wait
+        for st in b.stmts.iter_mut() {
+            if let Stmt::Expr(Expr::Call(c), Some(_)) = st {
+                if norm(&c.func.to_token_stream().to_string()) == "tokio::spawn" && c.args.len() == 1 && matches!(&c.args[0], Expr::Async(_)) {
+                    *st = parse_quote!(vx_spawn_detached(););
+                    self.log.push("R19b tokio::spawn(async move {..}); -> detached task (body not verified here)".into());
+                }
+            }
+        }
+        // loop-await rule of the contract: inside loop N only `.<allowed>().await` may be waited for
+        if let Some((n, allowed)) = self.loop_await_rule.clone() {
+            if self.loop_stack.contains(&n) {
+                let mut out: Vec<Stmt> = Vec::new();
+                for st in b.stmts.drain(..) {
+                    if stmt_awaits_other_than(&st, &allowed) {
+                        out.push(parse_quote!(vx_forbidden_await!();));
+                    }
+                    out.push(st);
+                }
+                b.stmts = out;
+            }
+        }
         let mut keep = Vec::new();
         for st in b.stmts.drain(..) {
             match &st {
@@ -325,6 +362,22 @@ impl VisitMut for Rw {
                             // tail expression position: value is ()
                             keep.push(Stmt::Expr(parse_quote!(()), None));
                         }
+                        continue;
+                    }
+                    if name == "bail" {
+                        // anyhow::bail!(x) = return Err(anyhow!(x))
+                        let ret: Expr = match m.mac.parse_body::<LitStr>() {
+                            Ok(l) => parse_quote!(return Err(anyhow::anyhow_msg(#l))),
+                            Err(_) => match m.mac.parse_body::<Expr>() {
+                                Ok(x) => parse_quote!(return Err(anyhow::anyhow_from(#x))),
+                                Err(_) => {
+                                    self.unsupported.push(format!("bail! with a format string: {}", m.mac.tokens));
+                                    parse_quote!(())
+                                }
+                            },
+                        };
+                        self.log.push("R6 bail!(x) -> return Err(<opaque error value>)".into());
+                        keep.push(Stmt::Expr(ret, m.semi_token.or(Some(Default::default()))));
                         continue;
                     }
                     if name == "pin" {
@@ -566,6 +619,9 @@ impl VisitMut for Rw {
         self.live_guards.extend(declared.iter().cloned());
         visit_mut::visit_block_mut(self, b);
         self.live_guards.truncate(depth);
+        if my_loop.is_some() {
+            self.loop_stack.pop();
+        }
     }
 
     fn visit_stmt_mut(&mut self, s: &mut Stmt) {
@@ -896,6 +952,18 @@ impl VisitMut for Rw {
                     self.check_log_args(&m.mac);
                     self.log.push(format!("R5 {name}! dropped (expression position)"));
                     Some(parse_quote!(()))
+                } else if name == "bail" {
+                    self.log.push("R6 bail!(x) -> return Err(<opaque error value>)".into());
+                    match m.mac.parse_body::<LitStr>() {
+                        Ok(l) => Some(parse_quote!(return Err(anyhow::anyhow_msg(#l)))),
+                        Err(_) => match m.mac.parse_body::<Expr>() {
+                            Ok(x) => Some(parse_quote!(return Err(anyhow::anyhow_from(#x)))),
+                            Err(_) => {
+                                self.unsupported.push(format!("bail! with a format string: {}", m.mac.tokens));
+                                None
+                            }
+                        },
+                    }
                 } else if name == "anyhow" {
                     // anyhow!("literal") -> anyhow::anyhow_msg("literal") (an opaque error value)
                     match m.mac.parse_body::<LitStr>() {
@@ -998,6 +1066,29 @@ impl VisitMut for Rw {
             }
             *t = r;
         }
+    }
+
+    fn visit_pat_mut(&mut self, p: &mut Pat) {
+        // R8 in patterns: `ext::Enum::Variant { .. }`, `ext::Enum::Variant(x)`, `ext::CONST`
+        match p {
+            Pat::Struct(ps) if ps.qself.is_none() => {
+                let mut q = ps.path.clone();
+                self.map_path(&mut q);
+                ps.path = q;
+            }
+            Pat::TupleStruct(ps) if ps.qself.is_none() => {
+                let mut q = ps.path.clone();
+                self.map_path(&mut q);
+                ps.path = q;
+            }
+            Pat::Path(pp) if pp.qself.is_none() && pp.path.segments.len() > 1 => {
+                let mut q = pp.path.clone();
+                self.map_path(&mut q);
+                pp.path = q;
+            }
+            _ => {}
+        }
+        visit_mut::visit_pat_mut(self, p);
     }
 
     fn visit_path_arguments_mut(&mut self, a: &mut PathArguments) {
@@ -1126,7 +1217,11 @@ impl Rw {
                 in_str = !in_str;
             }
             if !in_str && c == '(' {
-                self.unsupported.push(format!("log macro argument contains a call: {s}"));
+                if self.allow_log_calls {
+                    self.log.push("R5 log arguments that contain calls dropped unevaluated (their own panics are not checked)".into());
+                } else {
+                    self.unsupported.push(format!("log macro argument contains a call: {s}"));
+                }
                 return;
             }
             prev = c;
@@ -1138,6 +1233,25 @@ impl Rw {
 /// another mutex?
 /// does the statement wait for something other than a lock acquisition, or an operation performed THROUGH the guard `g`
 /// itself (`g.send(x).await`: using the locked object is what the lock is held for)?
+/// does the statement itself (nested blocks are visited on their own) wait for anything but `.<allowed>()`?
+fn stmt_awaits_other_than(st: &Stmt, allowed: &str) -> bool {
+    struct F<'g>(bool, &'g str);
+    impl<'a, 'g> syn::visit::Visit<'a> for F<'g> {
+        fn visit_expr_await(&mut self, a: &'a ExprAwait) {
+            let ok = matches!(&*a.base, Expr::MethodCall(m) if m.method == self.1 && m.args.is_empty());
+            if !ok {
+                self.0 = true;
+            }
+            syn::visit::visit_expr_await(self, a);
+        }
+        fn visit_block(&mut self, _b: &'a Block) {}
+        fn visit_expr_async(&mut self, _b: &'a ExprAsync) {}
+    }
+    let mut f = F(false, allowed);
+    syn::visit::Visit::visit_stmt(&mut f, st);
+    f.0
+}
+
 fn stmt_has_foreign_await(st: &Stmt, g: &str) -> bool {
     fn root_ident(e: &Expr) -> Option<String> {
         match e {
